@@ -108,8 +108,9 @@ def step (s : St) (ws : List String) : St × String :=
         | none => ({ s with search := none }, "ok null")
         | some ss =>
           let ex : Option Exec :=
+            -- `mode` is a historical token (quirk / exact); since 8b7ac93 ure_exec finds the leftmost
+            -- occurrence of a literal, the model has one literal matcher
             if re ≠ 0 then none
-            else if mode == "quirk" then some (quirkLit (cf ≠ 0) p)
             else some (exactLit (cf ≠ 0) p)
           ({ s with search := some (ss, ex) },
            s!"ok new stop={ss.stopPgno0}.{ss.stopSubno0},{ss.stopPgno1}.{ss.stopSubno1}")
@@ -121,7 +122,7 @@ def step (s : St) (ws : List String) : St × String :=
     | some d =>
       match s.search with
       | none => (s, "rej nosearch")
-      | some (ss, none) => (s, "ok unsupported " ++ ctxStr ss)
+      | some (_, none) => (s, "ok unsupported")
       | some (ss, some ex) =>
         let o := searchNext ex walkFuel s.cache ss d
         match o.res with
